@@ -33,7 +33,7 @@ CHECKS['C16'] = dict(
     technique='explicit-state BFS over operation histories on the real rib.RIB with the post-change hook folded into a mirror; resolved-entry hook: the same histories under the controlled runtime with every delivered snapshot compared with the model',
     text=('Every history of a 22-letter alphabet up to the depth bound, for hook registration before and after creation of the network instance: folding the notifications '
           '(ADD sets, DELETE removes, nil DELETE is a no-op) must reproduce RIBContents() in every network instance after every step, for Modify-style calls, held-operation resolution and Flush.'),
-    note='Resolved-entry hook tier: 16-letter alphabet from the empty RIB and two start states under the controlled runtime (the hook runs in its own goroutine, default schedule); each snapshot must equal the model at its acknowledgement and is mutated afterwards to show it is private. Post-change searches are repeated under descending map order. Bounded depth.')
+    note='Resolved-entry hook tier: 16-letter alphabet from the empty RIB and two start states under the controlled runtime (the hook runs in its own goroutine) in two schedules - hook goroutine runs after every step / only after the whole history (lagging consumer); each ADD snapshot must contain and each DELETE snapshot lack the announced entry, announcements must match acknowledgements, and a delivered snapshot must not change afterwards. Post-change searches are repeated under descending map order. Bounded depth.')
 ENGINES.append({'name': 'input-enumeration', 'path': 'harness/flushenum, harness/getenum, harness/malformed', 'serves_properties': ['C07', 'C08', 'C12'],
      'kind_free_text': 'bounded-exhaustive enumeration of structured inputs (catalogue x request x decision-table cell; builder-call subsets; mutation closure) executed on fresh real servers against a reference decision table / model'})
 ENGINES[0]['serves_properties'] += ['C04', 'C05', 'C06', 'C07']
@@ -76,7 +76,7 @@ CHECKS['C12'] = dict(
     technique='bounded-exhaustive mutation closure (protoreflect walk x operator set; singles, thorough: pairs) of valid AFT operations / Get / Flush requests in 3 pre-states on the real handlers',
     text=('Every single structured mutation (thorough: every pair) of one valid message per entry kind and operation type — clear/empty sub-message, other oneof arm, undefined/zero/last enum, boundary integers, malformed strings, '
           'empty/duplicated lists — applied in three pre-states (empty, chain installed and referenced, held operations) and under both iteration orders of the maps of the code (ordered-map seam) through the real doModify, Get (under the controlled runtime so a goroutine panic is a verdict) and Flush: '
-          'no panic, the call returns, a rejected request leaves RIB / held set / counters identical, and the invalid classes the property lists are rejected.'),
+          'no panic, the call returns, a rejected request leaves RIB / held set / counters identical, and the invalid classes the property lists are rejected. Every single-mutation case, Get and Flush is run a second time inside ONE controlled execution followed by a liveness probe (a new session negotiates, wins the election, programs an entry, reads it back, flushes): a lock, goroutine or channel left behind is the scheduler\'s exact deadlock verdict.'),
     note='Byte-level fuzzing of the wire format is a different family and not attempted; for a DELETE naming a syntactically invalid key that aliases nothing either verdict is accepted.')
 ENGINES.append({'name': 'schedule-dfs', 'path': 'rt/ (controlled scheduler + shims), cmd/vinstr (overlay instrumenter), mc/dfs.go', 'serves_properties': ['C05', 'C11'],
      'kind_free_text': 'stateless depth-first exploration of thread schedules and environment choices of the real, source-instrumented code under a cooperative scheduler, with iterative preemption / deviation bounding; exact deadlock detection; Go race detector made scheduler-blind for data races'})
@@ -85,9 +85,9 @@ CHECKS['C05']['text'] += (' Schedule tier: 2-3 threads announce colliding ids on
                           'each complete call/return history must be linearizable w.r.t. the sequential election model (porcupine) and the final state must be (maximum, an announcer of it).')
 CHECKS['C11'] = dict(
     category='model_checking', engine='schedule-dfs', design_ref='DESIGN.md §3 C11, §2.2',
-    technique='stateless schedule DFS with deviation bounding over 8 three/four-thread RPC scenarios on the -race build; HB-faithful shims make the Go race detector a per-schedule oracle',
-    text=('Eight scenarios of 3-4 threads with colliding keys (announce/announce/read; Modify chain vs Get vs Flush; negotiate/negotiate/disconnect; Flush(id) vs announce; primary vs non-primary on one key; '
-          'RIB add/delete with resolved-entry hook goroutine; AddNetworkInstance vs Get vs Flush; RIBContents vs cross-instance Flush vs AddNetworkInstance) run on the real server handlers under the controlled scheduler, '
+    technique='stateless schedule DFS with deviation bounding over 10 three/four-thread RPC scenarios on the -race build; HB-faithful shims make the Go race detector a per-schedule oracle',
+    text=('Ten scenarios of 3-4 threads with colliding keys (announce/announce/read; Modify chain vs Get vs Flush; negotiate/negotiate/disconnect; Flush(id) vs announce; primary vs non-primary on one key; '
+          'RIB add/delete with resolved-entry hook goroutine; AddNetworkInstance vs Get vs Flush; RIBContents vs cross-instance Flush vs AddNetworkInstance; deletes vs Flush vs Get; a Get over both populated instances abandoned by its client vs Modify vs Flush) run on the real server handlers under the controlled scheduler, '
           'every schedule within 2 (thorough 3) deviations from the default scheduler. Oracles per execution: Go race detector reports (hand-offs hidden with RaceDisable, program happens-before declared on tokens), exact deadlock '
           '(no enabled thread), panic, every call returns, election linearizable, quiescent RIB = acknowledged operations.'),
     note='Participants and bound are fixed (3-4 threads, <=3 deviations); sessions are driven at the handler API (the per-stream goroutine plumbing is C06/C10); weak-memory effects without a detectable race are out of scope. The race oracle is self-tested by cmd/rtlitmus.')
